@@ -1207,7 +1207,6 @@ class Hist:
         self.seq = 0
         self.nround = 0
         self.flts = self.cflts = self.targets = None
-        self.full = False
         self.touched = set()        # objects the steps since the last round were about (always asked in that round)
         self.mof_seen, self.mof_stale = set(), set()     # classes the MOF compiler has looked at / that changed since
         self.step('qualifier declarations in root/a (mof)', self.conn.compile_mof_string, QUAL_MOF, namespace='root/a')
@@ -1481,11 +1480,11 @@ class Hist:
         return [s[1:] for s in out]
 
     # -- one round: the model against the server
-    def round(self, label, minor=False):
+    def round(self, label, minor=False, full=False):
         if self.quick and minor:
             return
         if not self.quick:
-            self.flts, self.rflts, self.cflts = self.matrix[2 if self.full and not minor else 1]
+            self.flts, self.rflts, self.cflts = self.matrix[2 if full else 1]
         self.nround += 1
         self.steps.append('-- round %d (%s)' % (self.nround, label))
         self.check_stores()
@@ -1825,7 +1824,6 @@ def hist_subclass_ways(way, rnd, quick):
     after the filtered queries have been answered, is populated, and disappears again; the same names get another
     place in the tree of a second namespace, and later another place in the first one."""
     h = Hist('history/subclass/' + way, rnd, quick)
-    h.full = way == 'create'
     a, b = 'root/a', 'root/b'
     for s in BASE_SPECS:
         h.add_class(a, s, way)
@@ -1844,12 +1842,12 @@ def hist_subclass_ways(way, rnd, quick):
     h.add_class(a, Spec('A_S', 'A_Bin', assoc=(way != 'add')), way)
     h.round('empty subclass of an association class added', minor=True)
     h.add_assoc(a, 'A_S', [('Ante', y), ('Dep', x)], way)
-    h.round('instance of the new association subclass')
+    h.round('instance of the new association subclass', full=(way == 'create'))
     h.add_class(a, Spec('N_S', 'N_Base'), way)
     h.round('empty subclass of the result/endpoint class added', minor=True)
     s = h.add_node(a, 'N_S', 's', way)
     h.add_assoc(a, 'A_Bin', [('Ante', x), ('Dep', s)], way)
-    h.round('instance of the new result subclass associated')
+    h.round('instance of the new result subclass associated', full=(way == 'create'))
     h.add_assoc(a, 'A_Loose', [('Src', s), ('Dst', y)], way)
     h.round('instance of the new endpoint subclass as source')
     h.add_class(a, Spec('N_T', 'N_S'), way)
@@ -1861,7 +1859,7 @@ def hist_subclass_ways(way, rnd, quick):
     bs = h.add_node(b, 'N_S', 's', way)
     h.add_assoc(b, 'A_Mixed', [('Left', bx), ('Right', bs)], way)
     h.add_assoc(b, 'A_S', [('Src', bx), ('Dst', bz)], way)
-    h.round('same names elsewhere in the tree of the other namespace')
+    h.round('same names elsewhere in the tree of the other namespace', full=(way == 'create'))
     h.add_class(a, Spec('A_L', 'A_Loose', assoc=True), way)
     al = h.add_assoc(a, 'A_L', [('Src', x), ('Dst', t)], way)
     h.round('subclass of the non-key association', minor=True)
@@ -1872,13 +1870,13 @@ def hist_subclass_ways(way, rnd, quick):
     h.delete_class(a, 'A_S')
     h.round('association subclass deleted')
     h.delete_class(a, 'N_S')
-    h.round('result/endpoint subclass deleted')
+    h.round('result/endpoint subclass deleted', full=(way == 'create'))
     h.add_class(a, Spec('N_S', 'N_Other'), way)
     s2 = h.add_node(a, 'N_S', 's', way)
     h.add_assoc(a, 'A_Mixed', [('Left', y), ('Right', s2)], way)
     h.add_class(a, Spec('A_S', 'A_Mixed', assoc=True), way)
     h.add_assoc(a, 'A_S', [('Left', x), ('Right', s2)], way)
-    h.round('deleted names reused elsewhere in the tree')
+    h.round('deleted names reused elsewhere in the tree', full=(way == 'create'))
     h.delete_class(b, 'A_S')
     h.delete_class(b, 'N_S')
     h.round('subclasses deleted in the other namespace', minor=True)
@@ -2262,16 +2260,18 @@ def probe_mof_redefinition_namespace():
 
 
 # ---------------------------------------------------------------- main
-def histories(rnd, quick):
+def histories(quick):
+    def rnd(tag):       # every history has its own generator: each can be replayed alone
+        return random.Random('%d/%s' % (R.seed, tag))
     probe_mof_redefinition_namespace()
     probe_mof_class_cache()
     for way in WAYS:
-        run_history(hist_subclass_ways, way, rnd, quick)
-    run_history(hist_namespaces, rnd, quick)
-    run_history(hist_instances, rnd, quick)
-    run_history(hist_modify_class, rnd, quick)
+        run_history(hist_subclass_ways, way, rnd(way), quick)
+    run_history(hist_namespaces, rnd('namespaces'), quick)
+    run_history(hist_instances, rnd('instances'), quick)
+    run_history(hist_modify_class, rnd('modify-class'), quick)
     for i in range(2 if quick else 8):
-        run_history(hist_random, i, rnd, quick, 8 if quick else 25)
+        run_history(hist_random, i, rnd('random/%d' % i), quick, 8 if quick else 25)
 
 
 def main():
@@ -2303,7 +2303,7 @@ def main():
     w = random_world('random/30-nodes', rnd, 30, 45, NSS)
     explore(w, 'sparse', rnd, nsample=2 if quick else 15, variants=0 if quick else 1, node_sources_only=True)
     class_level(rnd, quick)
-    histories(rnd, quick)
+    histories(quick)
     for vid in sorted(PENDING, key=lambda v: (v.startswith('known:'), v)):
         R.violation(vid, **PENDING[vid])
     R.finish()
